@@ -24,7 +24,8 @@ RULE = ("case = LASFile with 1..40 float curves (counts drawn as k*per_line + {-
         "present, or a field narrower than its token, or per-column formats.")
 ASSUMPTIONS = [
     "formats are rounding formats %[flags][width][.prec]{f,F,e,E,g,G}; spacer='' only with a len_numeric_field larger "
-    "than every token (documented precondition); data_width >= widest field (TextWrapper would otherwise cut a number)",
+    "than every token (documented precondition); any data_width, also one narrower than a value (former precondition, lifted "
+    "with the repair of D48: a value is never split)",
     "a finite sample whose printed token equals the NULL value is replaced by construction (it must come back as NaN, C06)",
 ]
 
@@ -52,6 +53,8 @@ def fmt_of(case, j):
 def oracle(case):
     out = Outcome()
     opts = dict(case["opts"])
+    if isinstance(opts.get("wrap"), str):
+        opts["wrap"] = np.bool_(opts["wrap"] == "np.True")  # wrap given as a numpy boolean (the result of a comparison)
     cols = case["cols"]
     c, r = len(cols), len(cols[0])
     cf = opts.pop("column_fmt", None)
@@ -294,8 +297,12 @@ def cases(draw, max_rows=6):
     if lnf is None:
         eff_field = max(eff_field, 10, len(fmt % math.pi) + 1)
     need = eff_field + max(len(spacer), len(lhs)) * 8 + 1
-    if wrap and data_width < need:
+    narrow_ok = "\t" not in spacer + lhs and draw(st.integers(0, 7)) == 0
+    if wrap and data_width < need and not narrow_ok:
         data_width = need
+    elif wrap and narrow_ok:
+        # narrower than a value: a value is never split, it simply gets a line of its own
+        data_width = draw(st.integers(1, max(1, longest)))
     if wrap and "\t" not in spacer + lhs and draw(st.integers(0, 5)) == 0:
         # boundary of the documented precondition: the widest token just fits on a line of its own
         data_width = max(longest, 1)
@@ -317,6 +324,8 @@ def cases(draw, max_rows=6):
         case["units"] = "dotted"
     if draw(st.integers(0, 7)) == 0:
         case["wrap_item"] = draw(st.sampled_from(["YES", "Yes", "yes", "NO", "No"]))
+    elif draw(st.integers(0, 7)) == 0:
+        case["opts"]["wrap"] = "np.True" if case["opts"]["wrap"] else "np.False"
     if nullspec is not None:
         case["null"] = nullspec
     if col_fmt and draw(st.booleans()):
